@@ -1,6 +1,7 @@
 import PsV.Model.Permute
 import Mathlib.Data.List.Perm.Subperm
 import Mathlib.Algebra.BigOperators.Group.Finset.Basic
+import Mathlib.Algebra.Ring.Defs
 /-! Helper lemmas for C15 (permuteDimensions): validation, inverse permutation, mixed-radix index
 arithmetic, scatter loop. -/
 namespace PsV.Permute
@@ -626,7 +627,7 @@ theorem scatterLoop_hit {C} (f : Nat → Nat) : ∀ (cs : List C) (pos : Nat) (a
 variable {K E C : Type}
 
 /-- the invariants of a table in memory that the routine relies on -/
-structure WF (T : PTable K E C) : Prop where
+structure PTable.WF (T : PTable K E C) : Prop where
   pos : 0 < T.ndim
   order : T.order.length = T.ndim
   naxes : T.naxes.length = T.ndim
@@ -637,7 +638,7 @@ structure WF (T : PTable K E C) : Prop where
   strides : T.strides = rowMajor T.naxes
   coef : T.coef.length = prodL T.naxes
 
-theorem permuteBody_eq [Inhabited K] [Inhabited E] (junk : C) {T : PTable K E C} (hT : WF T) {p : List Nat}
+theorem permuteBody_eq [Inhabited K] [Inhabited E] (junk : C) {T : PTable K E C} (hT : T.WF) {p : List Nat}
     (hp : IsPerm T.ndim p) :
     permuteBody junk T p =
       { ndim := T.ndim
@@ -676,5 +677,251 @@ theorem permuteBody_eq [Inhabited K] [Inhabited E] (junk : C) {T : PTable K E C}
   have hnp : npos (rowMajor (gather 0 T.naxes p)) T.strides T.naxes (iperm T.ndim p) = nposOf T.naxes p := by
     funext pos; unfold nposOf; rw [hT.strides, hT.naxes]
   rw [htake, hnp, copyN_eq _ _ _ hsl hT.coef]
+
+theorem permuteBody_WF [Inhabited K] [Inhabited E] (junk : C) {T : PTable K E C} (hT : T.WF) {p : List Nat}
+    (hp : IsPerm T.ndim p) : (permuteBody junk T p).WF := by
+  rw [permuteBody_eq junk hT hp]
+  have hpl := hp.length
+  refine ⟨hT.pos, ?_, ?_, ?_, ?_, ?_, ?_, rfl, ?_⟩
+  · simp [gather_length, hpl]
+  · simp [gather_length, hpl]
+  · simp [gather_length, hpl]
+  · simp [gather_length, hpl]
+  · simp [gather_length, hpl]
+  · intro a ha
+    simp only [Option.map_eq_some_iff] at ha
+    obtain ⟨b, _, rfl⟩ := ha
+    simp [gather_length, hpl]
+  · simp [scatterLoop_length, prodL_gather hp hT.naxes]
+
+/-- injectivity of the position map on `[0, ncoeffs)` -/
+theorem nposOf_inj {n : Nat} {p : List Nat} (hp : IsPerm n p) {ns : List Nat} (hns : ns.length = n) {a b : Nat}
+    (ha : a < prodL ns) (hb : b < prodL ns) (h : nposOf ns p a = nposOf ns p b) : a = b := by
+  have hq := iperm_isPerm hp
+  have hinv : Inv n (iperm n p) p := (iperm_inv hp).symm hp
+  rw [← nposOf_roundtrip hp hq hinv hns ha, ← nposOf_roundtrip hp hq hinv hns hb, h]
+
+theorem coef_relocated_aux [Inhabited K] [Inhabited E] (junk : C) {T : PTable K E C} (hT : T.WF) {p : List Nat}
+    (hp : IsPerm T.ndim p) {pos : Nat} (h : pos < prodL T.naxes) :
+    (permuteBody junk T p).coef[nposOf T.naxes p pos]? = T.coef[pos]? := by
+  rw [permuteBody_eq junk hT hp]
+  have hk : pos < T.coef.length := by rw [hT.coef]; exact h
+  have := scatterLoop_hit (nposOf T.naxes p) T.coef 0 (List.replicate (prodL T.naxes) junk)
+    (by
+      intro a b ha hb e
+      simp only [Nat.zero_add] at e
+      exact nposOf_inj hp hT.naxes (by rw [← hT.coef]; exact ha) (by rw [← hT.coef]; exact hb) e)
+    (by
+      intro k hk
+      simp only [Nat.zero_add, List.length_replicate]
+      exact nposOf_lt hp hT.naxes (by rw [← hT.coef]; exact hk))
+    pos hk
+  simp only [Nat.zero_add] at this
+  simp only [this, List.getElem?_eq_getElem hk]
+
+/-! ## evaluation as a sum over all coefficients -/
+
+theorem digit_eq_digits : ∀ (ns : List Nat) (pos k : Nat), k < ns.length →
+    pos / (rowMajor ns).getD k 0 % ns.getD k 0 = (digits ns pos).getD k 0
+  | [], _, _, h => by simp at h
+  | n :: ns, pos, 0, _ => by simp [rowMajor, digits]
+  | n :: ns, pos, k+1, h => by
+    have := digit_eq_digits ns pos k (by simpa using h)
+    simpa [rowMajor, digits] using this
+
+theorem prod_range_list {M} [CommMonoid M] (n : Nat) (G : Nat → M) :
+    ∏ k ∈ Finset.range n, G k = ((List.range n).map G).prod := by
+  induction n with
+  | zero => simp
+  | succ n ih => rw [Finset.prod_range_succ, ih, List.range_succ, List.map_append, List.prod_append]; simp
+
+/-- a product over all axes does not depend on the order in which the axes are visited -/
+theorem prod_range_perm {M} [CommMonoid M] {n : Nat} {p : List Nat} (hp : IsPerm n p) (G : Nat → M) :
+    ∏ k ∈ Finset.range n, G (p.getD k 0) = ∏ k ∈ Finset.range n, G k := by
+  rw [prod_range_list, prod_range_list]
+  have := map_range_getD G p
+  rw [hp.length] at this
+  rw [this]
+  exact (List.Perm.map G hp).prod_eq
+
+/-- everything the table knows about one axis -/
+structure AxisAttr (K E : Type) where
+  order : Nat
+  nknots : Nat
+  naxes : Nat
+  knots : K
+  extent : E × E
+  period : Option E
+
+def PTable.axis [Inhabited K] [Inhabited E] (T : PTable K E C) (k : Nat) : AxisAttr K E :=
+  ⟨T.order.getD k 0, T.nknots.getD k 0, T.naxes.getD k 0, T.knots.getD k default, T.extents.getD k default,
+   T.periods.map fun a => a.getD k default⟩
+
+theorem permuteBody_axis [Inhabited K] [Inhabited E] (junk : C) {T : PTable K E C} (hT : T.WF) {p : List Nat}
+    (hp : IsPerm T.ndim p) {k : Nat} (hk : k < T.ndim) :
+    (permuteBody junk T p).axis k = T.axis (p.getD k 0) := by
+  rw [permuteBody_eq junk hT hp]
+  unfold PTable.axis
+  simp only
+  rw [gather_getD 0 _ hp hT.order hk, gather_getD 0 _ hp hT.nknots hk, gather_getD 0 _ hp hT.naxes hk,
+    gather_getD default _ hp hT.knots hk, gather_getD default _ hp hT.extents hk]
+  cases hpp : T.periods with
+  | none => rfl
+  | some a => simp only [Option.map_some]; rw [gather_getD default a hp (hT.periods a hpp) hk]
+
+/-- the spline as a sum over every stored coefficient of coefficient × product over the axes of a
+per-axis basis value; `basis` may depend on everything the table stores about the axis (order, knot
+vector, number of coefficients, extent, period), on the coordinate, and on the coefficient index
+along the axis.  With `basis a x i` = the `i`-th B-spline of order `a.order` on `a.knots` at `x`
+this is the meaning of evaluation (`PsV.specEval`). -/
+def tensorEval {R X : Type} [CommSemiring R] [Inhabited K] [Inhabited E] (val : C → R)
+    (basis : AxisAttr K E → X → Nat → R) (dc : C) (dx : X) (T : PTable K E C) (x : List X) : R :=
+  ∑ pos ∈ Finset.range (prodL T.naxes), val (T.coef.getD pos dc) *
+    ∏ k ∈ Finset.range T.ndim, basis (T.axis k) (x.getD k dx) (pos / T.strides.getD k 0 % T.naxes.getD k 0)
+
+theorem tensorEval_permuteBody {R X : Type} [CommSemiring R] [Inhabited K] [Inhabited E] (val : C → R)
+    (basis : AxisAttr K E → X → Nat → R) (dc : C) (dx : X) (junk : C) {T : PTable K E C} (hT : T.WF)
+    {p : List Nat} (hp : IsPerm T.ndim p) (x : List X) (hx : x.length = T.ndim) :
+    tensorEval val basis dc dx (permuteBody junk T p) (gather dx x p) = tensorEval val basis dc dx T x := by
+  have hT' := permuteBody_WF junk hT hp
+  have hq := iperm_isPerm hp
+  have hinv1 : Inv T.ndim p (iperm T.ndim p) := iperm_inv hp
+  have hinv2 : Inv T.ndim (iperm T.ndim p) p := hinv1.symm hp
+  have hb : permuteBody junk T p = permuteBody junk T p := rfl
+  have hna : (permuteBody junk T p).naxes = gather 0 T.naxes p := by rw [permuteBody_eq junk hT hp]
+  have hnd : (permuteBody junk T p).ndim = T.ndim := by rw [permuteBody_eq junk hT hp]
+  have hst : (permuteBody junk T p).strides = rowMajor (gather 0 T.naxes p) := by rw [permuteBody_eq junk hT hp]
+  have htn : (gather 0 T.naxes p).length = T.ndim := by simp [gather_length, hp.length]
+  symm
+  unfold tensorEval
+  rw [hna, hnd, hst, hT.strides]
+  refine Finset.sum_nbij' (nposOf T.naxes p) (nposOf (gather 0 T.naxes p) (iperm T.ndim p)) ?_ ?_ ?_ ?_ ?_
+  · intro a ha
+    rw [Finset.mem_range] at ha ⊢
+    rw [prodL_gather hp hT.naxes]; exact nposOf_lt hp hT.naxes ha
+  · intro a ha
+    rw [Finset.mem_range] at ha ⊢
+    have := nposOf_lt hq htn ha
+    rwa [prodL_gather hp hT.naxes] at this
+  · intro a ha
+    rw [Finset.mem_range] at ha
+    exact nposOf_roundtrip hp hq hinv2 hT.naxes ha
+  · intro a ha
+    rw [Finset.mem_range] at ha
+    have := nposOf_roundtrip hq hp hinv1 htn ha
+    rwa [gather_gather 0 T.naxes hp hq hT.naxes hinv2] at this
+  · intro a ha
+    rw [Finset.mem_range] at ha
+    have hc := coef_relocated_aux junk hT hp ha
+    have hc' : (permuteBody junk T p).coef.getD (nposOf T.naxes p a) dc = T.coef.getD a dc := by
+      simp only [List.getD_eq_getElem?_getD, hc]
+    rw [hc']
+    congr 1
+    rw [← prod_range_perm hp]
+    apply Finset.prod_congr rfl
+    intro k hk
+    rw [Finset.mem_range] at hk
+    rw [permuteBody_axis junk hT hp hk, gather_getD dx x hp hx hk,
+      digit_eq_digits (gather 0 T.naxes p) (nposOf T.naxes p a) k (by rw [htn]; exact hk),
+      digits_nposOf hp hT.naxes ha,
+      gather_getD 0 _ hp (by rw [digits_length, hT.naxes]) hk,
+      digit_eq_digits T.naxes a (p.getD k 0) (by rw [hT.naxes]; exact hp.getD_lt hk)]
+
+/-! ## field projections of the result, inverse, independence of the uninitialised buffer -/
+
+section fields
+variable [Inhabited K] [Inhabited E] (junk : C) {T : PTable K E C} (hT : T.WF) {p : List Nat}
+  (hp : IsPerm T.ndim p)
+include hT hp
+
+theorem permuteBody_ndim : (permuteBody junk T p).ndim = T.ndim := by rw [permuteBody_eq junk hT hp]
+theorem permuteBody_order : (permuteBody junk T p).order = gather 0 T.order p := by rw [permuteBody_eq junk hT hp]
+theorem permuteBody_naxes : (permuteBody junk T p).naxes = gather 0 T.naxes p := by rw [permuteBody_eq junk hT hp]
+theorem permuteBody_strides : (permuteBody junk T p).strides = rowMajor (gather 0 T.naxes p) := by
+  rw [permuteBody_eq junk hT hp]
+theorem permuteBody_nknots : (permuteBody junk T p).nknots = gather 0 T.nknots p := by rw [permuteBody_eq junk hT hp]
+theorem permuteBody_knots : (permuteBody junk T p).knots = gather default T.knots p := by
+  rw [permuteBody_eq junk hT hp]
+theorem permuteBody_extents : (permuteBody junk T p).extents = gather default T.extents p := by
+  rw [permuteBody_eq junk hT hp]
+theorem permuteBody_periods : (permuteBody junk T p).periods = T.periods.map fun a => gather default a p := by
+  rw [permuteBody_eq junk hT hp]
+end fields
+
+theorem PTable.ext' {A B : PTable K E C} (h1 : A.ndim = B.ndim) (h2 : A.order = B.order) (h3 : A.naxes = B.naxes)
+    (h4 : A.strides = B.strides) (h5 : A.nknots = B.nknots) (h6 : A.knots = B.knots)
+    (h7 : A.extents = B.extents) (h8 : A.periods = B.periods) (h9 : A.coef = B.coef) : A = B := by
+  cases A; cases B; simp only [PTable.mk.injEq]; exact ⟨h1, h2, h3, h4, h5, h6, h7, h8, h9⟩
+
+theorem permuteBody_inverse [Inhabited K] [Inhabited E] (junk : C) {T : PTable K E C} (hT : T.WF) {p q : List Nat}
+    (hp : IsPerm T.ndim p) (hq : IsPerm T.ndim q) (hinv : Inv T.ndim q p) :
+    permuteBody junk (permuteBody junk T p) q = T := by
+  have hT' := permuteBody_WF junk hT hp
+  have hnd := permuteBody_ndim junk hT hp
+  have hq' : IsPerm (permuteBody junk T p).ndim q := by rw [hnd]; exact hq
+  have hT'' := permuteBody_WF junk hT' hq'
+  have hnax : (permuteBody junk (permuteBody junk T p) q).naxes = T.naxes := by
+    rw [permuteBody_naxes junk hT' hq', permuteBody_naxes junk hT hp, gather_gather 0 _ hp hq hT.naxes hinv]
+  apply PTable.ext'
+  · rw [permuteBody_ndim junk hT' hq', hnd]
+  · rw [permuteBody_order junk hT' hq', permuteBody_order junk hT hp, gather_gather 0 _ hp hq hT.order hinv]
+  · exact hnax
+  · rw [hT''.strides, hnax, hT.strides]
+  · rw [permuteBody_nknots junk hT' hq', permuteBody_nknots junk hT hp, gather_gather 0 _ hp hq hT.nknots hinv]
+  · rw [permuteBody_knots junk hT' hq', permuteBody_knots junk hT hp, gather_gather default _ hp hq hT.knots hinv]
+  · rw [permuteBody_extents junk hT' hq', permuteBody_extents junk hT hp,
+      gather_gather default _ hp hq hT.extents hinv]
+  · rw [permuteBody_periods junk hT' hq', permuteBody_periods junk hT hp]
+    cases hpp : T.periods with
+    | none => rfl
+    | some a => simp only [Option.map_some]; rw [gather_gather default _ hp hq (hT.periods a hpp) hinv]
+  · apply List.ext_getElem?
+    intro i
+    by_cases hi : i < prodL T.naxes
+    · have h1 := coef_relocated_aux junk hT hp hi
+      have hlt : nposOf T.naxes p i < prodL (permuteBody junk T p).naxes := by
+        rw [permuteBody_naxes junk hT hp, prodL_gather hp hT.naxes]; exact nposOf_lt hp hT.naxes hi
+      have h2 := coef_relocated_aux junk hT' hq' hlt
+      rw [permuteBody_naxes junk hT hp, nposOf_roundtrip hp hq hinv hT.naxes hi] at h2
+      rw [h2, h1]
+    · have l1 : (permuteBody junk (permuteBody junk T p) q).coef.length ≤ i := by
+        rw [hT''.coef, hnax]; omega
+      have l2 : T.coef.length ≤ i := by rw [hT.coef]; omega
+      rw [List.getElem?_eq_none l1, List.getElem?_eq_none l2]
+
+/-- no content of the uninitialised buffer `t_coefficients` reaches the table -/
+theorem permuteBody_junk_irrelevant [Inhabited K] [Inhabited E] (j1 j2 : C) {T : PTable K E C} (hT : T.WF)
+    {p : List Nat} (hp : IsPerm T.ndim p) : permuteBody j1 T p = permuteBody j2 T p := by
+  have hq := iperm_isPerm hp
+  have hinv1 : Inv T.ndim p (iperm T.ndim p) := iperm_inv hp
+  have hinv2 : Inv T.ndim (iperm T.ndim p) p := hinv1.symm hp
+  have htn : (gather 0 T.naxes p).length = T.ndim := by simp [gather_length, hp.length]
+  apply PTable.ext'
+  · rw [permuteBody_ndim j1 hT hp, permuteBody_ndim j2 hT hp]
+  · rw [permuteBody_order j1 hT hp, permuteBody_order j2 hT hp]
+  · rw [permuteBody_naxes j1 hT hp, permuteBody_naxes j2 hT hp]
+  · rw [permuteBody_strides j1 hT hp, permuteBody_strides j2 hT hp]
+  · rw [permuteBody_nknots j1 hT hp, permuteBody_nknots j2 hT hp]
+  · rw [permuteBody_knots j1 hT hp, permuteBody_knots j2 hT hp]
+  · rw [permuteBody_extents j1 hT hp, permuteBody_extents j2 hT hp]
+  · rw [permuteBody_periods j1 hT hp, permuteBody_periods j2 hT hp]
+  · apply List.ext_getElem?
+    intro i
+    by_cases hi : i < prodL T.naxes
+    · -- `i` is the image of some position
+      have hi' : i < prodL (gather 0 T.naxes p) := by rw [prodL_gather hp hT.naxes]; exact hi
+      have hpre := nposOf_lt hq htn hi'
+      rw [prodL_gather hp hT.naxes] at hpre
+      have hrt := nposOf_roundtrip hq hp hinv1 htn hi'
+      rw [gather_gather 0 T.naxes hp hq hT.naxes hinv2] at hrt
+      have h1 := coef_relocated_aux j1 hT hp hpre
+      have h2 := coef_relocated_aux j2 hT hp hpre
+      rw [hrt] at h1 h2
+      rw [h1, h2]
+    · have l1 : (permuteBody j1 T p).coef.length ≤ i := by
+        rw [(permuteBody_WF j1 hT hp).coef, permuteBody_naxes j1 hT hp, prodL_gather hp hT.naxes]; omega
+      have l2 : (permuteBody j2 T p).coef.length ≤ i := by
+        rw [(permuteBody_WF j2 hT hp).coef, permuteBody_naxes j2 hT hp, prodL_gather hp hT.naxes]; omega
+      rw [List.getElem?_eq_none l1, List.getElem?_eq_none l2]
 
 end PsV.Permute
